@@ -31,9 +31,19 @@ pub const BOUNDARY: [u8; 16] = [0, 1, 2, 0x7F, 0x80, 0x81, 0xEE, 0xEF, 0xF0, 0xF
 
 /// Run single raw edges until the next instruction boundary (leaving the current one first).
 /// Returns the number of edges, or None if `cap` was exceeded.
+thread_local! {
+    /// When set to Some(k): the continue key is pressed before edge k of the next `run_to_boundary`
+    /// (on a running machine: a documented no-op that must change neither result nor cycle count).
+    pub static SPURIOUS_CONTINUE: std::cell::Cell<Option<usize>> = std::cell::Cell::new(None);
+}
+
 pub fn run_to_boundary(m: &mut RawMachine, cap: usize) -> Option<usize> {
     let mut n = 0;
+    let press = SPURIOUS_CONTINUE.with(|c| c.take());
     while m.is_instruction_done() && m.state() == State::Running {
+        if press == Some(n) {
+            m.trigger_key_continue();
+        }
         m.trigger_clock_edge();
         n += 1;
         if n > cap {
@@ -41,6 +51,9 @@ pub fn run_to_boundary(m: &mut RawMachine, cap: usize) -> Option<usize> {
         }
     }
     while !m.is_instruction_done() && m.state() == State::Running {
+        if press == Some(n) {
+            m.trigger_key_continue();
+        }
         m.trigger_clock_edge();
         n += 1;
         if n > cap {
